@@ -214,8 +214,59 @@ Definition rpairs_op (op : topop) : list (N * N) :=
   | _ => flat_map rpairs_msg (top_msgs op)
   end.
 
+(* no migration anywhere in a tree: the code serving a contract cannot change while the tree runs *)
+Fixpoint nomig_msg (m : msg) : bool :=
+  match m with
+  | MMigrate _ _ _ => false
+  | MExec _ p _ | MInst _ p _ _ _ _ => nomig_prog p
+  | _ => true
+  end
+with nomig_prog (p : prog) : bool :=
+  match p with Prog _ _ out => match out with OFail => true | OResp _ _ _ sbs => nomig_subs sbs end end
+with nomig_subs (l : subs) : bool :=
+  match l with SNil => true | SCons sb r => nomig_sub sb && nomig_subs r end
+with nomig_sub (sb : sub) : bool :=
+  match sb with Sub _ _ _ m on_ok on_err => nomig_msg m && nomig_prog on_ok && nomig_prog on_err end.
+Definition nomig_op (op : topop) : bool :=
+  match op with TWasmSudo _ p => nomig_prog p | _ => forallb nomig_msg (top_msgs op) end.
+
+(* every sub-message of every program of a tree, with the node of the program that dispatches it *)
+Fixpoint dsubs_msg (m : msg) : list (N * sub) :=
+  match m with
+  | MExec _ p _ | MInst _ p _ _ _ _ | MMigrate _ _ p => dsubs_prog p
+  | _ => []
+  end
+with dsubs_prog (p : prog) : list (N * sub) :=
+  match p with Prog n _ out => match out with OFail => [] | OResp _ _ _ sbs => dsubs_subs n sbs end end
+with dsubs_subs (d : N) (l : subs) : list (N * sub) :=
+  match l with SNil => [] | SCons sb r => dsubs_sub d sb ++ dsubs_subs d r end
+with dsubs_sub (d : N) (sb : sub) : list (N * sub) :=
+  match sb with Sub _ _ _ m on_ok on_err => (d, sb) :: dsubs_msg m ++ dsubs_prog on_ok ++ dsubs_prog on_err end.
+Definition dsubs_op (op : topop) : list (N * sub) :=
+  match op with TWasmSudo _ p => dsubs_prog p | _ => flat_map dsubs_msg (top_msgs op) end.
+
+Definition prog_nosubs (p : prog) : bool :=
+  match p with Prog _ _ OFail | Prog _ _ (OResp _ _ _ SNil) => true | _ => false end.
+Definition call_tag (en : rentry) : N := match en with RCall _ _ _ _ _ _ t _ => t | _ => 0 end.
+(* the code table has a code with this tag, and every code with this tag has a reply entry point *)
+Definition tag_replies (cl : list (N * code)) (tag : N) : bool :=
+  existsb (fun x => c_tag (snd x) =? tag) cl && forallb (fun x => negb (c_tag (snd x) =? tag) || has_reply (snd x)) cl.
+(* a reply that is due was invoked: the sub-message is an execute of a program without sub-messages whose body ran *)
+Definition due_ok (cl : list (N * code)) (tr : trace) (d : N) (sb : sub) : bool :=
+  match sb with
+  | Sub _ _ ro (MExec _ p' _) on_ok on_err =>
+      match find_call d tr with
+      | Some en_d =>
+          negb (tag_replies cl (call_tag en_d) && prog_nosubs p' && memN (prog_node p') (call_nodes tr))
+          || (if prog_fails_itself p' then negb (wants_err ro) || memN (prog_node on_err) (call_nodes tr)
+              else negb (wants_ok ro) || memN (prog_node on_ok) (call_nodes tr))
+      | None => true
+      end
+  | _ => true
+  end.
+
 (* ---------- C03: replies ---------- *)
-Definition p_c03 (st : step) : option N :=
+Definition p_c03 (ce : case_env) (st : step) : option N :=
   let infos := flat_op (st_op st) in
   let tr := st_trace st in
   first_fail [
@@ -247,7 +298,14 @@ Definition p_c03 (st : step) : option N :=
     (7, true);
     (* 8: "reply is invoked exactly once ... and never otherwise": of the two reply handlers of a sub-message (the one
           for success, the one for failure) at most one is ever entered, for every sub-message at every depth *)
-    (8, forallb (fun pr => negb (memN (fst pr) (call_nodes tr) && memN (snd pr) (call_nodes tr))) (rpairs_op (st_op st)))
+    (8, forallb (fun pr => negb (memN (fst pr) (call_nodes tr) && memN (snd pr) (call_nodes tr))) (rpairs_op (st_op st)));
+    (* 9: "reply is invoked exactly once IF ...": a reply that is due does happen.  For every sub-message that executes a
+          program without sub-messages whose body ran, dispatched by a program whose code (the tag of its own call entry,
+          looked up in the case's code table) has a reply entry point: if the callee's response is well-formed and the mode
+          wants success, the success handler was entered; if the callee failed by itself and the mode wants failure, the
+          failure handler was entered.  Judged only when no migration occurs in the call (the serving code cannot change) *)
+    (9, negb (nomig_op (st_op st)) ||
+        forallb (fun ds => due_ok (ce_codes ce) tr (fst ds) (snd ds)) (dsubs_op (st_op st)))
   ].
 
 (* ---------- C04: events and data of leaf calls ---------- *)
@@ -519,7 +577,7 @@ Definition check_with (f : step -> option N) (ce : case_env) (steps : list step)
 
 Definition c01 := check_with p_c01.
 Definition c02 := check_with p_c02.
-Definition c03 := check_with p_c03.
+Definition c03 (ce : case_env) := check_with (p_c03 ce) ce.
 Definition c04 := check_with p_c04.
 Definition c05 := check_with p_c05.
 Definition c13 := check_with p_c13.
